@@ -176,14 +176,6 @@ class ThreadPool:
         self.started = True
         # Start some threads.
         self.adjustPoolsize()
-        # A submission made from another thread may be half-way through being
-        # coordinated: it saw the pre-start limit of zero workers but has not
-        # yet been recorded as backlogged.  Go through the coordinator once,
-        # which serialises with it, so the backlog read below includes it.
-        self._team.grow(0)
-        backlog = self._team.statistics().backloggedWorkCount
-        if backlog:
-            self._team.grow(backlog)
 
     def startAWorker(self) -> None:
         """
@@ -334,6 +326,16 @@ class ThreadPool:
         # Start some threads if we have too few.
         if self.workers < self.min:
             self._team.grow(self.min - self.workers)
+        # Work may have been backlogged while the limit did not allow a worker
+        # for it (before the pool was started, or while the maximum was zero).
+        # A submission made from another thread may be half-way through being
+        # coordinated: it saw the old limit but has not yet been recorded as
+        # backlogged.  Go through the coordinator once, which serialises with
+        # it, so the backlog read below includes it.
+        self._team.grow(0)
+        backlog = self._team.statistics().backloggedWorkCount
+        if backlog:
+            self._team.grow(backlog)
 
     def dumpStats(self) -> None:
         """
